@@ -885,3 +885,53 @@ def l7(facts, rep, M):
                     n += 1
                     rep.check(rt.dominates(ao[0], b) and b != ao[0], "L7", "beatree::Tree::read_transaction", "add_one-before-snapshot", "read_transaction snapshots the tree state at %s before registering with the counter: a sync could start against a transaction it cannot see" % t.get("ln"), site=t.get("ln"), detail="add_one precedes shared.read()")
     return n
+
+
+def l8(facts, rep, M):
+    """L8: the direct read API (`Nomt::read`) looks the value up while it HOLDS the access guard: the guard is taken with a
+    blocking acquisition (or a `try_*` whose refusal leaves before the lookup), and is held when Store::load_value runs.  An
+    opportunistic `try_read()` whose result is ignored lets the lookup run in the middle of a commit: `root()` already of
+    commit n, `read(k)` still of commit n-1."""
+    from core import trace
+
+    body = facts.bodies.get("nomt::Nomt::read") or facts.bodies.get("nomt::Nomt::<T>::read")
+    if body is None:
+        rep.notes.append("L8: Nomt::read no longer exists: not decided")
+        return 0
+    short = "Nomt::read"
+    n = 0
+    at_term, _entry = M.held(body)
+    looks = [b for b, t in body.calls() if (t.get("callee") or "").endswith(("Store::load_value", "ReadTransaction::lookup", "ReadTransaction::lookup_blocking")) and not body.is_cleanup(b)]
+    if not looks:
+        rep.notes.append("L8: Nomt::read no longer calls Store::load_value directly: not decided")
+        return 0
+    for lb in looks:
+        n += 1
+        H = at_term.get(lb, set())
+        held = any(cls == ACCESS for (_l, cls, _m) in H)
+        why = "the access guard is held over the lookup"
+        ok = held
+        if held:
+            # the acquisition that produced the held guard: blocking, or a try whose refusal is looked at
+            for ab, t in body.calls():
+                c = t.get("callee") or ""
+                m = ACQ.match(c)
+                if not m or body.is_cleanup(ab) or not body.dominates(ab, lb):
+                    continue
+                if not any(cls == ACCESS for (cls, _mode) in M.classes_of_value(body, {"k": "copy", "pl": t["dest"]})):
+                    continue
+                if m.group(2).startswith("try_"):
+                    looked = False
+                    for sb in range(body.n):
+                        st = body.term(sb)
+                        if st["k"] == "switch" and body.dominates(sb, lb) and any(r.kind == "call" and r.bb == ab for r in trace(body, st["d"])):
+                            # one edge must leave without the lookup
+                            if any(lb not in body.reachable([e]) for e in body.succ(sb) if not body.is_cleanup(e)):
+                                looked = True
+                    if not looked:
+                        ok = False
+                        why = "the guard comes from `%s` at %s whose refusal is ignored: when a writer holds or waits for the lock the lookup runs unguarded" % (m.group(2), t.get("ln"))
+        else:
+            why = "no access guard is held at the lookup"
+        rep.check(ok, "L8", short, "read-under-access-guard", "Nomt::read looks the value up at %s without holding the access guard: %s - a reader can see the root of commit n and the value of commit n-1" % (body.term(lb).get("ln"), why), site=body.term(lb).get("ln"), detail=why)
+    return n
